@@ -80,8 +80,8 @@ Proof. cbv zeta. split; vm_compute; reflexivity. Qed.
 (* ... and for arbitrary trees of vector/vector binary operators, per-sample
    operators (instant functions, unary minus, arithmetic and comparisons with a
    literal) and count aggregations over selectors, e.g.
-   count by (z) (abs(a + on (x) b) * ignoring (y) group_left (c > 2)): every node's stream is a
-   function of the grid timestamp; its sample IDs are distinct and name series
+   count by (z) (abs(a + on (x) b) * ignoring (y) group_left (c > 2)): every node's stream is its
+   per-timestamp denotation (Trees.jdenote) mapped over the grid; its sample IDs are distinct and name series
    of the node; at every timestamp at which the reference evaluation of the
    node succeeds, the node's labelled samples are a permutation of the
    reference's. Hypothesis at every join: distinct signatures among the series
@@ -90,11 +90,10 @@ Theorem C01_join_trees :
   forall (cf : cfg) (w : window),
   (0 < c_shards cf)%nat -> (0 < c_batch cf)%nat -> 0 <= c_lookback cf -> wf_window w -> Bin.noT < w_start w ->
   forall t, Trees.jok t ->
-  exists f,
-    Trees.jrun cf w t = inl (map (fun ts => (ts, f ts)) (grid w)) /\
-    forall ts, Trees.good_vec (List.length (Trees.jseries t)) (f ts) /\
+    Trees.jrun cf w t = inl (map (fun ts => (ts, Trees.jdenote (c_lookback cf) t ts)) (grid w)) /\
+    forall ts, Trees.good_vec (List.length (Trees.jseries t)) (Trees.jdenote (c_lookback cf) t ts) /\
                forall R, Trees.jref (c_lookback cf) t ts = Some R ->
-                         Permutation.Permutation (Bin.labelled Z (Trees.jseries t) (f ts)) R.
+                         Permutation.Permutation (Bin.labelled Z (Trees.jseries t) (Trees.jdenote (c_lookback cf) t ts)) R.
 Proof. exact Trees.jtree_matches_reference. Qed.
 Print Assumptions C01_join_trees.
 
